@@ -52,16 +52,30 @@ func scenC09(k *K) {
 			acl = ids[:1]
 		}
 		name := fmt.Sprintf("db%d", d)
+		if d > 0 && k.C.Chance(1, 2) {
+			name = "db0" // same name, different type or write list: a different database
+		}
 		op := k.Do(0, "create "+name, 50, func() (interface{}, error) {
 			ctx, cancel := OpCtx(60 * time.Second)
 			defer cancel()
 			return peers[0].DB.Create(ctx, name, typ, &orbitdb.CreateDBOptions{AccessController: WriteACL(acl...)})
 		})
-		if !op.Done || op.Err != nil {
-			panic(abortPanic{fmt.Sprintf("create: %v", op.Err)})
+		if !op.Done {
+			panic(abortPanic{"create hang"})
+		}
+		if op.Err != nil {
+			continue // same name, type and write list as an existing one
 		}
 		st := op.Val.(iface.Store)
 		dbs = append(dbs, &c09db{addr: st.Address().String(), typ: typ, stores: map[int]iface.Store{0: st}})
+	}
+	ndb = len(dbs)
+	if ndb < 2 {
+		k.Notes["nontrivial"] = false
+		for _, p := range peers {
+			k.StopPeer(p)
+		}
+		return
 	}
 	idleIdx := k.C.Intn(ndb)
 	dbs[idleIdx].idle = true
